@@ -28,8 +28,10 @@ META = {
                    "graph and adjacency order, and rejects unknown names where the traversal meets them. The algorithmic model is "
                    "tied to the code by exact comparison on generated graphs (exhaustive over all sequences up to a length bound, "
                    "linear and circular, plus random long ones, permuted adjacency, unknown names); the implementation's output is "
-                   "additionally judged by the specification. Not yet proved: that the algorithmic model equals the specification "
-                   "on linear/circular strands for every n (checked exhaustively up to the bound by the correspondence instead)."),
+                   "additionally judged by the specification. For the graph the sequence readers build for a LINEAR strand of any length "
+                   "the algorithmic model is proved equal to the specification (loop invariant over the edge iterator: terminates within "
+                   "its fuel, residues = strand followed by its complement read backwards, numbered 1..2n). For circular strands the "
+                   "same equality is checked exhaustively up to the bound by the correspondence, not proved for every n."),
     'level_note': ("Trusted: Coq kernel + vm_compute, the table extractor of gen/translate.py, the harness. No axioms (Print "
                    "Assumptions: closed). networkx adjacency order and MetaMolecule.add_node are modelled by hand and validated "
                    "by the correspondence only."),
